@@ -168,6 +168,10 @@ class Program:
     def render_expr(self, e, top=True):
         if e[0] == 'atom':
             return self.render_atom(e[1])
+        if len(e) > 2 and e[2].get('fam'):
+            # a family trigger: written FAM:qualifier, it stands for the
+            # expression over the members held in e[1]
+            return f"{e[2]['fam']}:{e[2]['qual']}"
         op = ' & ' if e[0] == '&' else ' | '
         s = op.join(self.render_expr(c, False) for c in e[1])
         return s if top else f'({s})'
@@ -312,7 +316,7 @@ DEFAULT_KNOBS = dict(
     p_or=0.3, p_offset=0.35, p_future=0.08, p_custom=0.35, p_optional=0.3,
     p_fail_trigger=0.15, p_start_trigger=0.1, p_retries=0.25,
     p_abs=0.0, p_runahead=0.5, p_lone=0.3, datetime=0.0,
-    p_submit_retries=0.1, p_finish=0.05,
+    p_submit_retries=0.1, p_finish=0.05, p_family=0.0,
 )
 
 
@@ -352,6 +356,12 @@ def gen_program(rng: random.Random, knobs=None):
         for c in t.customs:
             t.opt[c] = rng.random() < 0.5
     fail_used = set()
+    if k['p_family'] and rng.random() < k['p_family'] and len(names) >= 3:
+        members = names[:rng.randint(2, 3)]
+        prog.families['FAM'] = list(members)
+        for m in members:
+            prog.tasks[m].family = 'FAM'
+            prog.tasks[m].opt['succeeded'] = False
 
     # sections
     n_sec = rng.randint(*k['n_sections'])
@@ -385,6 +395,22 @@ def gen_program(rng: random.Random, knobs=None):
                 sec.lines.append((None, [tgt]))
             else:
                 sec.lines.append((expr, [tgt]))
+            placed.add(tgt)
+    fam = prog.families.get('FAM')
+    if fam and not any(len(e) > 2 for sec in prog.sections
+                       for e, _tg in sec.lines if e is not None
+                       and e[0] != 'atom'):
+        # make sure the family is used by at least one family trigger
+        later = [n for n in names if all(order[m] < order[n] for m in fam)
+                 and n not in no_prereq_only]
+        if later:
+            tgt = rng.choice(later)
+            qual = rng.choice(['succeed-all', 'succeed-any', 'start-all'])
+            out = 'started' if qual == 'start-all' else 'succeeded'
+            node = ('|' if qual == 'succeed-any' else '&',
+                    [('atom', Atom(m, out, 'rel', 0)) for m in fam],
+                    {'fam': 'FAM', 'qual': qual})
+            rng.choice(prog.sections).lines.append((node, [tgt]))
             placed.add(tgt)
     # future-trigger sources must have no prerequisites anywhere
     for n in no_prereq_only:
@@ -440,7 +466,33 @@ def gen_program(rng: random.Random, knobs=None):
         # (a future trigger whose target is not yet in the pool does not
         # extend the runahead limit: that combination is C04's business)
         prog.runahead = f'P{rng.randint(0, 4)}'
+    _fix_families(prog)
     return prog
+
+
+def _fix_families(prog):
+    """Keep a family trigger only where writing FAM:qualifier means exactly
+    the member expression it stands for; otherwise write the members out."""
+    if not prog.families:
+        return
+    fam = [m for m in prog.families.get('FAM', []) if m in prog.tasks]
+    ok = len(fam) >= 2 and fam == prog.families.get('FAM') and not any(
+        prog.tasks[m].opt.get('succeeded') or prog.tasks[m].opt.get('started')
+        for m in fam)
+    if not ok:
+        for t in prog.tasks.values():
+            t.family = None
+        prog.families = {}
+
+    def strip(e):
+        if e is None or e[0] == 'atom':
+            return e
+        kids = [strip(c) for c in e[1]]
+        if len(e) > 2 and ok:
+            return (e[0], kids, e[2])
+        return (e[0], kids)
+    for s_ in prog.sections:
+        s_.lines = [(strip(e), tg) for e, tg in s_.lines]
 
 
 def _gen_section(rng, prog, used):
@@ -559,6 +611,17 @@ def _gen_expr(rng, prog, k, names, order, tgt, sec, fail_used, npo, depth,
         # offset+qualifier atom twice (C13/C14 territory, not claimed here),
         # so an atom appears at most once per expression.
         seen = set()
+    fam = prog.families.get('FAM')
+    if fam and depth == 0 and rng.random() < 0.7 and all(
+            order[m] < order[tgt] for m in fam):
+        qual = rng.choice(['succeed-all', 'succeed-any', 'start-all'])
+        out = 'started' if qual == 'start-all' else 'succeeded'
+        fparts = [('atom', Atom(m, out, 'rel', 0)) for m in fam]
+        if not any(p_[1].key() in seen for p_ in fparts):
+            for p_ in fparts:
+                seen.add(p_[1].key())
+            parts.append(('|' if qual == 'succeed-any' else '&', fparts,
+                          {'fam': 'FAM', 'qual': qual}))
     for _ in range(n):
         if depth < 1 and n > 1 and rng.random() < 0.2:
             sub = _gen_expr(rng, prog, k, names, order, tgt, sec, fail_used,
